@@ -325,3 +325,7 @@ impl Prop for C13 {
         vec!["has-error-token", "number-after-dot", "unterminated", "non-ascii", "parser-errors", "parses-clean", "mode:corpus"]
     }
 }
+
+pub fn prop() -> Option<&'static dyn Prop> {
+    Some(&C13)
+}
